@@ -277,6 +277,10 @@ JUDGES = {"c01": judge_c01, "c02": judge_c02, "c03": judge_c03, "c16": judge_c16
 def explore(kind, n, cfg, hidden, states, d, persistent, judge, snap=False, extra=None, only_pre_first=False):
     t = core.Tally()
     ops = forest.ops_for(n, cfg)
+    if isinstance(judge, str) and judge not in JUDGES:
+        from . import lockstep
+
+        JUDGES[judge] = lockstep.make_judge(judge.upper())
     jf = JUDGES[judge] if isinstance(judge, str) else judge
     want = (lambda h: h in PRE) if only_pre_first else None
     for key, state, witness in states:
